@@ -1,1 +1,284 @@
-(* placeholder; being written *)
+(** Trace checkers for the C20 correspondence run.  Each replays the operations the harness executed on
+    the real contracts exactly as the subsystem's own checker does (same [step], same state
+    comparison, imported from Run/<X>Run.v) and, in addition, evaluates the model's VIEW
+    (Model/Quotes.v) on the state right before an operation wherever the harness queried the real
+    view there, and compares the two answers.
+    Results are [] or [index; field; model value; implementation value]; fields 40.. = a view
+    succeeded on one side only, 50.. = view values differ, 60 = staking: base(view) + boosted <> paid. *)
+From MX Require Import Base.Prelude Gen.Params Model.Quotes.
+From MX Require Model.Pair Run.PairRun Model.Farm Run.FarmRun Model.Staking Run.StakingRun.
+From MX Require Model.Penalty Run.EnergyRun Model.PriceDiscovery Run.PriceDiscoveryRun.
+
+Definition b2z (b : bool) : Z := if b then 1 else 0.
+
+(** compare a model answer with an observed (ok, value) pair; a failed query is observed with value 0 *)
+Definition cmp_view (i k : Z) (m : result Z) (ok : bool) (v : Z) : list Z :=
+  match m with
+  | Ok mv => if negb ok then [i; 40 + k; 1; 0] else if mv =? v then [] else [i; 50 + k; mv; v]
+  | Err _ => if ok then [i; 40 + k; 0; 1] else []
+  end.
+
+(** ------------------------------------------------------------------ pair *)
+Module RPair.
+Import MX.Model.Pair MX.Run.PairRun QPair.
+
+(** kind 0 getAmountOut(tok, amt) | 1 getAmountIn(tok, amt) | 2 getTokensForGivenPosition(amt) | 3 getEquivalent(tok, amt) *)
+Inductive pq := PQ (kind tok amt : Z) (ok : bool) (v1 v2 : Z).
+
+Definition check_q (i : Z) (p : pair) (q : pq) : list Z :=
+  let '(PQ kind tok amt ok v1 v2) := q in
+  if kind =? 0 then cmp_view i 0 (get_amount_out p tok amt) ok v1
+  else if kind =? 1 then cmp_view i 1 (get_amount_in p tok amt) ok v1
+  else if kind =? 2 then
+    let '(m1, m2) := get_tokens_for_given_position p amt in
+    match cmp_view i 2 (Ok m1) ok v1 with [] => cmp_view i 3 (Ok m2) ok v2 | d => d end
+  else cmp_view i 4 (get_equivalent p tok amt) ok v1.
+
+Fixpoint check_qs (i : Z) (p : pair) (qs : list pq) : list Z :=
+  match qs with
+  | [] => []
+  | q :: t => match check_q i p q with [] => check_qs i p t | d => d end
+  end.
+
+Fixpoint trace (w : world) (i : Z) (tr : list (pop * pobs * list pq)) : list Z :=
+  match tr with
+  | [] => []
+  | (op, o, qs) :: t =>
+      match check_qs i (w_p w) qs with
+      | _ :: _ as d => d
+      | [] =>
+      match wstep w op with
+      | Ok (w', outs, e) =>
+          if negb (o_ok o) then [i; 1; 1; 0]
+          else if negb (list_eqb outs (o_outs o)) then [i; 2; hd (-1) outs; hd (-1) (o_outs o)]
+          else match first_tok_diff (e_burn e) (o_burn o) with
+               | Some (tk, m, v) => [i; 20 + tk; m; v]
+               | None =>
+               match first_tok_diff (e_coll e) (o_coll o) with
+               | Some (tk, m, v) => [i; 30 + tk; m; v]
+               | None =>
+                 match cmp_state i w' o with
+                 | [] => trace w' (i + 1) t
+                 | d => d
+                 end
+               end end
+      | Err _ =>
+          if o_ok o then [i; 1; 0; 1]
+          else match cmp_state i w o with
+               | [] => trace w (i + 1) t
+               | d => d
+               end
+      end
+      end
+  end.
+
+End RPair.
+
+(** ------------------------------------------------------------------ dex/farm *)
+Module RFarm.
+Import MX.Model.Farm MX.Run.FarmRun QFarm.
+
+(** calculateRewardsForGivenPosition(user, x, attributes with reward_per_share [rps]) at block [blk];
+    [b] = the boosted part the claim that followed paid to [user] ([known] = that claim succeeded) *)
+Inductive fq := FQ (blk x rps b : Z) (known ok : bool) (v : Z).
+
+Definition check_q (i : Z) (f : farm) (q : fq) : list Z :=
+  let '(FQ blk x rps b known ok v) := q in
+  let m := calc_rewards f blk x (mkAttrs rps 0 0 x 0) b in
+  if known then cmp_view i 0 m ok v
+  else match m with Ok _ => if ok then [] else [i; 40; 1; 0] | Err _ => if ok then [i; 40; 0; 1] else [] end.
+
+Fixpoint check_qs (i : Z) (f : farm) (qs : list fq) : list Z :=
+  match qs with
+  | [] => []
+  | q :: t => match check_q i f q with [] => check_qs i f t | d => d end
+  end.
+
+Fixpoint trace (f : farm) (i : Z) (tr : list (fop * fobs * list fq)) : list Z :=
+  match tr with
+  | [] => []
+  | (op, o, qs) :: t =>
+      match check_qs i f qs with
+      | _ :: _ as d => d
+      | [] =>
+      match fstep f op with
+      | Ok (f', outs) =>
+          if negb (fo_ok o) then [i; 1; 1; 0]
+          else if negb (list_eqb outs (fo_outs o)) then [i; 2; hd (-1) (tl outs); hd (-1) (tl (fo_outs o))]
+          else match cmp_state i f' o with
+               | [] => trace f' (i + 1) t
+               | d => d
+               end
+      | Err _ =>
+          if fo_ok o then [i; 1; 0; 1]
+          else match cmp_state i f o with
+               | [] => trace f (i + 1) t
+               | d => d
+               end
+      end
+      end
+  end.
+
+End RFarm.
+
+(** ------------------------------------------------------------------ farm-staking *)
+Module RStk.
+Import MX.Model.Staking MX.Run.StakingRun QStk.
+
+(** calculateRewardsForGivenPosition(x, attributes with reward_per_share [arps]) at block [blk] *)
+Inductive sq := SQ (blk x arps : Z) (ok : bool) (v : Z).
+
+Definition check_q (i : Z) (s : stk) (q : sq) : list Z :=
+  let '(SQ blk x arps ok v) := q in cmp_view i 0 (calc_rewards s blk x arps) ok v.
+
+Fixpoint check_qs (i : Z) (s : stk) (qs : list sq) : list Z :=
+  match qs with
+  | [] => []
+  | q :: t => match check_q i s q with [] => check_qs i s t | d => d end
+  end.
+
+(** a successful claimRewards pays base(position) + boosted(caller): the model's base for the quoted
+    position plus the observed boosted part must be the observed payment *)
+Definition check_paid (i : Z) (s : stk) (op : sop) (ok : bool) (qs : list sq) : list Z :=
+  match op, qs with
+  | SClaim blk _ _ x r b, SQ qblk qx arps _ _ :: _ =>
+      if ok && (qblk =? blk) && (qx =? x) then
+        match calc_rewards s blk x arps with
+        | Ok base => if base + b =? r then [] else [i; 60; base + b; r]
+        | Err _ => [i; 60; -1; r]
+        end
+      else []
+  | _, _ => []
+  end.
+
+Fixpoint trace (s : stk) (i : Z) (tr : list (sop * sobs * list sq)) : list Z :=
+  match tr with
+  | [] => []
+  | (op, o, qs) :: t =>
+      match check_qs i s qs ++ check_paid i s op (so_ok o) qs with
+      | _ :: _ as d => firstn 4 d
+      | [] =>
+      match sstep s op with
+      | Ok (s', outs) =>
+          if negb (so_ok o) then [i; 1; 1; 0]
+          else if negb (list_eqb outs (so_outs o)) then [i; 2; hd (-1) (tl outs); hd (-1) (tl (so_outs o))]
+          else match cmp_state i s' o with
+               | [] => trace s' (i + 1) t
+               | d => d
+               end
+      | Err _ =>
+          if so_ok o then [i; 1; 0; 1]
+          else match cmp_state i s o with
+               | [] => trace s (i + 1) t
+               | d => d
+               end
+      end
+      end
+  end.
+
+End RStk.
+
+(** ------------------------------------------------------------------ energy-factory *)
+Module RPen.
+Import MX.Model.Penalty MX.Run.EnergyRun QPen.
+
+(** getPenaltyAmount(amt, prev, new) *)
+Inductive lq := LQ (amt prev new : Z) (ok : bool) (v : Z).
+
+Definition check_q (i : Z) (s : lst) (q : lq) : list Z :=
+  let '(LQ amt prev new ok v) := q in cmp_view i 0 (get_penalty_amount s amt prev new) ok v.
+
+Fixpoint check_qs (i : Z) (s : lst) (qs : list lq) : list Z :=
+  match qs with
+  | [] => []
+  | q :: t => match check_q i s q with [] => check_qs i s t | d => d end
+  end.
+
+Fixpoint trace (s : lst) (i : Z) (tr : list (lop * lobs * list lq)) : list Z :=
+  match tr with
+  | [] => []
+  | (op, o, qs) :: t =>
+      match check_qs i s qs with
+      | _ :: _ as d => d
+      | [] =>
+      match step s op with
+      | Ok (s', outs) =>
+          if negb (o_ok o) then [i; 1; 1; 0]
+          else if negb (list_eqb outs (o_outs o)) then [i; 2; hd (-1) outs; hd (-1) (o_outs o)]
+          else match cmp_state i s' o with
+               | [] => trace s' (i + 1) t
+               | d => d
+               end
+      | Err _ =>
+          if o_ok o then [i; 1; 0; 1]
+          else match cmp_state i s o with
+               | [] => trace s (i + 1) t
+               | d => d
+               end
+      end
+      end
+  end.
+
+End RPen.
+
+(** ------------------------------------------------------------------ price-discovery *)
+Module RPd.
+Import MX.Model.PriceDiscovery MX.Run.PriceDiscoveryRun QPd.
+
+(** getCurrentPhase (discriminant, penalty percentage) and getCurrentPrice right before the operation *)
+Inductive dq := DQ (phase pct : Z) (okpr : bool) (price : Z).
+
+Definition check_q (i : Z) (s : pd) (q : dq) : list Z :=
+  let '(DQ ph pct okpr price) := q in
+  match current_phase s with
+  | Ok m =>
+      if negb (phase_ix m =? ph) then [i; 50; phase_ix m; ph]
+      else if negb (penalty_of m =? pct) then [i; 51; penalty_of m; pct]
+      else cmp_view i 2 (current_price s) okpr price
+  | Err _ => [i; 40; 0; 1]
+  end.
+
+Fixpoint check_qs (i : Z) (s : pd) (qs : list dq) : list Z :=
+  match qs with
+  | [] => []
+  | q :: t => match check_q i s q with [] => check_qs i s t | d => d end
+  end.
+
+Fixpoint trace (s : pd) (i : Z) (tr : list (pdop * pobs * list dq)) : list Z :=
+  match tr with
+  | [] => []
+  | (op, o, qs) :: t =>
+      match check_qs i s qs with
+      | _ :: _ as d => d
+      | [] =>
+      match step s op with
+      | Ok (s', outs) =>
+          if negb (o_ok o) then [i; 1; 1; 0]
+          else if negb (list_eqb outs (o_outs o)) then [i; 2; hd (-1) outs; hd (-1) (o_outs o)]
+          else match cmp_state i s' o with
+               | [] => trace s' (i + 1) t
+               | d => d
+               end
+      | Err _ =>
+          if o_ok o then [i; 1; 0; 1]
+          else match cmp_state i s o with
+               | [] => trace s (i + 1) t
+               | d => d
+               end
+      end
+      end
+  end.
+
+Definition history (r : result pd) (deployed : bool) (o0 : pobs) (tr : list (pdop * pobs * list dq)) : list Z :=
+  match r with
+  | Ok s =>
+      if deployed then
+        match cmp_state (-1) s o0 with
+        | [] => trace s 0 tr
+        | d => d
+        end
+      else [-1; 1; 1; 0]
+  | Err _ => if deployed then [-1; 1; 0; 1] else []
+  end.
+
+End RPd.
